@@ -326,6 +326,24 @@ pub fn replay_case(case: &serde_json::Value) -> String {
       Some(canon_sci(neg, coef, e))
     }
   });
+  if let Some(conv) = case.get("conversion").and_then(|x| x.as_str()) {
+    let plain = n.to_string();
+    let r = match conv {
+      "xsd:decimal" => Value::try_from_xsd_decimal(&plain),
+      "xsd:double" => Value::try_from_xsd_double(&plain),
+      _ => Value::try_from_xsd_integer(&plain),
+    };
+    return match r {
+      Ok(Value::Number(m)) if m == n => format!("PASS the {} conversion of the plain text of {} gives the number back", conv, text),
+      other => format!("FAIL the {} conversion of the plain text of {} gives {:?}", conv, text, other.map(|v| short(&v.to_string())).map_err(|e| e.to_string())),
+    };
+  }
+  if let Some(lit) = case.get("literal").and_then(|x| x.as_str()) {
+    return match eval_literal(lit) {
+      Ok(Value::Number(m)) if m == n => format!("PASS the FEEL literal `{}` evaluates to {}", short(lit), text),
+      other => format!("FAIL the FEEL literal `{}` evaluates to {:?} instead of {}", short(lit), other.map(|v| short(&v.to_string())), text),
+    };
+  }
   match check_number(&n, expected.as_ref(), text) {
     None => format!("PASS {} prints as {}", text, short(&n.to_string())),
     Some((k, w)) => format!("FAIL {}: {}", k, w),
